@@ -624,6 +624,8 @@ func (g *FuncGen) execTypeAssert(x *ssa.TypeAssert, st *State) error {
 	id := g.w.TypeID(x.AssertedType)
 	ok := fmt.Sprintf("(= (i_typ %s) %d)", v, id)
 	payload := g.w.Unbox(x.AssertedType, fmt.Sprintf("(i_val %s)", v))
+	// a value held by an interface is a well-formed value of its dynamic type
+	g.assumeType(payload, x.AssertedType, g.allocTerm(st.heap), "")
 	if x.CommaOk {
 		g.tuples[x] = []string{fmt.Sprintf("(ite %s %s %s)", ok, payload, g.w.Zero(x.AssertedType)), ok}
 	} else {
